@@ -179,6 +179,46 @@ theorem dim_values (lp : Int) : dim lp 1 = 31 ∧ dim lp 2 = 28 + lp ∧ dim lp 
     dim lp 6 = 30 ∧ dim lp 7 = 31 ∧ dim lp 8 = 31 ∧ dim lp 9 = 30 ∧ dim lp 10 = 31 ∧ dim lp 11 = 30 ∧ dim lp 12 = 31 := by
   simp [dim, dbm]; omega
 
+/-- a calendar date lies within its year: first day of the year ≤ day number < first day of the next -/
+theorem valid_within_year (dt : Date) (h : ValidDate dt) :
+    toRD ⟨dt.y, 1, 1⟩ ≤ toRD dt ∧ toRD dt < toRD ⟨dt.y + 1, 1, 1⟩ := by
+  obtain ⟨y, m, d⟩ := dt
+  obtain ⟨hm1, hm2, hd1, hd2⟩ := h
+  simp only at hm1 hm2 hd1 hd2
+  have hlen := yearLen y
+  have hlp01 : (if isLeap y = true then (1 : Int) else 0) = 0 ∨ (if isLeap y = true then (1 : Int) else 0) = 1 := by
+    split <;> simp
+  have hcases : m = 1 ∨ m = 2 ∨ m = 3 ∨ m = 4 ∨ m = 5 ∨ m = 6 ∨ m = 7 ∨ m = 8 ∨ m = 9 ∨ m = 10 ∨ m = 11 ∨ m = 12 := by omega
+  constructor
+  · simp only [toRD, daysBeforeMonth_eq] at *
+    generalize (if isLeap y = true then (1 : Int) else 0) = lp at *
+    rcases hcases with h | h | h | h | h | h | h | h | h | h | h | h <;>
+      (subst h; simp only [dim, dbm] at *; simp at *; omega)
+  · have hl2 : toRD ⟨y + 1, 1, 1⟩ = toRD ⟨y, 1, 1⟩ + (365 + (if isLeap y = true then (1 : Int) else 0)) := by
+      split at hlen <;> simp_all <;> omega
+    rw [hl2]
+    simp only [toRD, daysBeforeMonth_eq] at *
+    generalize (if isLeap y = true then (1 : Int) else 0) = lp at *
+    rcases hcases with h | h | h | h | h | h | h | h | h | h | h | h <;>
+      (subst h; simp only [dim, dbm] at *; simp at *; omega)
+
+/-- the first day of a year does not come before the first day of an earlier year -/
+theorem yearStart_mono (y y' : Int) (h : y ≤ y') : toRD ⟨y, 1, 1⟩ ≤ toRD ⟨y', 1, 1⟩ := by
+  rcases Int.lt_or_eq_of_le h with h | h
+  · have := yearStart_lt y y' h; omega
+  · rw [h]; exact Int.le_refl _
+
+/-- **the calendar dates of the years 1 to 9999 are exactly the day numbers 1 to 3 652 059** (one
+    direction; the other is `fromRD_valid`): chrono's `NaiveDate` range used by the Hijri theorems -/
+theorem valid_date_range (dt : Date) (h : ValidDate dt) (h1 : 1 ≤ dt.y) (h2 : dt.y ≤ 9999) :
+    1 ≤ toRD dt ∧ toRD dt ≤ 3652059 := by
+  obtain ⟨a, b⟩ := valid_within_year dt h
+  have lo := yearStart_mono 1 dt.y h1
+  have hi := yearStart_mono (dt.y + 1) 10000 (by omega)
+  have e1 : toRD ⟨1, 1, 1⟩ = 1 := by decide
+  have e2 : toRD ⟨10000, 1, 1⟩ = 3652060 := by decide
+  omega
+
 /-- **`fromRD` inverts `toRD` on every calendar date** (with `fromRD_valid`: the dates and the day
     numbers are in bijection - chrono's contract for `NaiveDate` arithmetic) -/
 theorem fromRD_toRD (dt : Date) (h : ValidDate dt) : fromRD (toRD dt) = dt := by
